@@ -469,6 +469,8 @@ pub struct RCase {
     pub first_id: u32,
     /// the rcv-settle-mode each transfer names itself: 0 none (the link's applies), 1 first, 2 second
     pub modes: Vec<u8>,
+    /// number of transfer frames the sender cuts each delivery into (missing = 1)
+    pub frames: Vec<u8>,
 }
 
 impl RCase {
@@ -481,7 +483,7 @@ impl RCase {
         }
     }
     pub fn to_json(&self) -> J {
-        json!({"rcv_second": self.rcv_second, "n": self.n, "disposals": self.disposals.iter().map(|(v, c)| json!([v, c])).collect::<Vec<_>>(), "settles": self.settles.iter().map(|(a, b)| json!([a, b])).collect::<Vec<_>>(), "first_id": self.first_id, "modes": self.modes})
+        json!({"rcv_second": self.rcv_second, "n": self.n, "disposals": self.disposals.iter().map(|(v, c)| json!([v, c])).collect::<Vec<_>>(), "settles": self.settles.iter().map(|(a, b)| json!([a, b])).collect::<Vec<_>>(), "first_id": self.first_id, "modes": self.modes, "frames": self.frames})
     }
     pub fn from_json(j: &J) -> Option<RCase> {
         Some(RCase {
@@ -491,6 +493,7 @@ impl RCase {
             settles: j.get("settles")?.as_array()?.iter().filter_map(|x| Some((x.get(0)?.as_u64()? as usize, x.get(1)?.as_u64()? as usize))).collect(),
             first_id: j.get("first_id")?.as_u64()? as u32,
             modes: j.get("modes").and_then(|x| x.as_array()).map(|a| a.iter().filter_map(|y| y.as_u64().map(|v| v as u8)).collect()).unwrap_or_default(),
+            frames: j.get("frames").and_then(|x| x.as_array()).map(|a| a.iter().filter_map(|y| y.as_u64().map(|v| v as u8)).collect()).unwrap_or_default(),
         })
     }
 }
@@ -584,7 +587,21 @@ pub fn run_receiver(case: &RCase) -> RObserved {
                 2 => Some(ReceiverSettleMode::Second),
                 _ => None,
             };
-            tr!(peer.send(0, Performative::Transfer(t), &message_bytes(k as u64, 5)).await);
+            // the delivery in 1..3 frames: id, tag and mode on the first one only
+            let body = message_bytes(k as u64, 5);
+            let nf = (case.frames.get(k).copied().unwrap_or(1).max(1) as usize).min(body.len().max(1));
+            if nf <= 1 {
+                tr!(peer.send(0, Performative::Transfer(t), &body).await);
+            } else {
+                let piece = body.len() / nf;
+                for i in 0..nf {
+                    let lo = i * piece;
+                    let hi = if i + 1 == nf { body.len() } else { (i + 1) * piece };
+                    let mut f = if i == 0 { t.clone() } else { transfer(3, None, None, None, false) };
+                    f.more = i + 1 < nf;
+                    tr!(peer.send(0, Performative::Transfer(f), &body[lo..hi]).await);
+                }
+            }
         }
         // collect the client's dispositions until the disposal phase is over
         peer.recv_timeout = Duration::from_millis(50);
@@ -750,7 +767,159 @@ pub fn gen_rcase(rng: &mut Rng) -> RCase {
     let rcv_second = rng.chance(2, 3);
     // a transfer may name its own mode: `first` on any link, `second` only where the link is `second`
     let modes: Vec<u8> = if rng.chance(1, 2) { vec![0; n] } else { (0..n).map(|_| if rcv_second { rng.below(3) as u8 } else { rng.below(2) as u8 }).collect() };
-    RCase { rcv_second, n, disposals, settles, first_id: *rng.pick(&[0u32, 7, u32::MAX, u32::MAX - 3]), modes }
+    let frames: Vec<u8> = if rng.chance(1, 2) { vec![1; n] } else { (0..n).map(|_| 1 + rng.below(3) as u8).collect() };
+    RCase { rcv_second, n, disposals, settles, first_id: *rng.pick(&[0u32, 7, u32::MAX, u32::MAX - 3]), modes, frames }
+}
+
+
+// ------------------------------------------------------------------------------------
+// deliveries cut into several transfers at the link (max-message-size), settled or not, on a mixed link
+
+/// (ask for pre-settled, body length)
+pub type SplitSend = (bool, usize);
+
+/// returns (result per send, unsettled entries left, first-frame settled flag per delivery, errors)
+pub fn run_split(max_message_size: u64, sends: &[SplitSend]) -> (Vec<String>, usize, Vec<bool>, Vec<String>) {
+    let rt = paused_runtime();
+    let sends = sends.to_vec();
+    rt.block_on(async move {
+        let (cio, pio) = tokio::io::duplex(1 << 20);
+        let mut peer = Peer::new(pio);
+        let mut errors = vec![];
+        let cs = sends.clone();
+        let client = tokio::spawn(async move {
+            let mut conn = Connection::builder().container_id("settle-split").open_with_stream(cio).await.map_err(|e| format!("open: {:?}", e))?;
+            let mut session = Session::builder().begin(&mut conn).await.map_err(|e| format!("begin: {:?}", e))?;
+            let mut sender = Sender::builder().name("split").target("q").sender_settle_mode(SenderSettleMode::Mixed).attach(&mut session).await.map_err(|e| format!("attach: {:?}", e))?;
+            let mut results = vec![];
+            for (k, (ask, len)) in cs.iter().enumerate() {
+                let msg = Message::from(Binary::from(vec![k as u8; *len]));
+                let sendable = Sendable::builder().message(msg).settled(if *ask { Some(true) } else { None }).build();
+                results.push(match tokio::time::timeout(Duration::from_secs(5), sender.send(sendable)).await {
+                    Err(_) => "pending".to_string(),
+                    Ok(Ok(o)) => if matches!(o, fe2o3_amqp_types::messaging::Outcome::Accepted(_)) { "accepted".to_string() } else { "other".to_string() },
+                    Ok(Err(e)) => format!("error:{:?}", e).replace(' ', "_"),
+                });
+            }
+            let left = fe2o3_amqp::verif::sender_unsettled_tags(&sender).len();
+            let _ = tokio::time::timeout(Duration::from_secs(5), sender.close()).await;
+            let _ = tokio::time::timeout(Duration::from_secs(5), session.end()).await;
+            let _ = tokio::time::timeout(Duration::from_secs(5), conn.close()).await;
+            Ok::<_, String>((results, left))
+        });
+        macro_rules! tr {
+            ($e:expr) => {
+                match $e {
+                    Ok(v) => v,
+                    Err(e) => {
+                        errors.push(format!("peer: {:?}", e));
+                        return (vec![], 0, vec![], errors);
+                    }
+                }
+            };
+        }
+        tr!(peer.accept_open(&PeerOpen::default()).await);
+        tr!(peer.accept_begin(0, 0, 2048, 2048).await);
+        let (_, p, _) = tr!(peer.recv_frame().await);
+        let a = match p {
+            Performative::Attach(a) => a,
+            _ => {
+                errors.push("expected attach".into());
+                return (vec![], 0, vec![], errors);
+            }
+        };
+        let ours = Attach {
+            name: a.name.clone(),
+            handle: Handle(4),
+            role: Role::Receiver,
+            snd_settle_mode: a.snd_settle_mode.clone(),
+            rcv_settle_mode: ReceiverSettleMode::First,
+            source: a.source.clone(),
+            target: a.target.clone(),
+            unsettled: None,
+            incomplete_unsettled: false,
+            initial_delivery_count: None,
+            max_message_size: Some(max_message_size),
+            offered_capabilities: None,
+            desired_capabilities: None,
+            properties: None,
+        };
+        tr!(peer.send(0, Performative::Attach(ours), &[]).await);
+        let f = Flow { next_incoming_id: Some(0), incoming_window: 2048, next_outgoing_id: 0, outgoing_window: 2048, handle: Some(Handle(4)), delivery_count: Some(a.initial_delivery_count.unwrap_or(0)), link_credit: Some(1000), available: None, drain: false, echo: false, properties: None };
+        tr!(peer.send(0, Performative::Flow(f), &[]).await);
+        let mut first_settled: Vec<bool> = vec![];
+        let mut current: Option<(u32, bool)> = None;
+        peer.recv_timeout = Duration::from_secs(8);
+        loop {
+            match peer.recv_frame().await {
+                Ok((_, Performative::Transfer(t), _)) => {
+                    if current.is_none() {
+                        let settled = t.settled.unwrap_or(false);
+                        first_settled.push(settled);
+                        current = Some((t.delivery_id.unwrap_or(u32::MAX), settled));
+                    }
+                    if !t.more {
+                        let (id, settled) = current.take().unwrap();
+                        if !settled {
+                            let d = Disposition { role: Role::Receiver, first: id, last: None, settled: true, state: dstate(0), batchable: false };
+                            tr!(peer.send(0, Performative::Disposition(d), &[]).await);
+                        }
+                    }
+                }
+                Ok((_, Performative::Detach(d), _)) => {
+                    tr!(peer.send(0, Performative::Detach(Detach { handle: Handle(4), closed: d.closed, error: None }), &[]).await);
+                }
+                Ok((_, Performative::End(_), _)) => {
+                    tr!(peer.send(0, Performative::End(End { error: None }), &[]).await);
+                }
+                Ok((_, Performative::Close(_), _)) => {
+                    let _ = peer.close_politely().await;
+                    break;
+                }
+                Ok(_) => {}
+                Err(_) => break,
+            }
+        }
+        match tokio::time::timeout(Duration::from_secs(60), client).await {
+            Ok(Ok(Ok((results, left)))) => (results, left, first_settled, errors),
+            other => {
+                errors.push(format!("client: {:?}", other.map(|r| r.map(|x| x.map(|_| ())))));
+                (vec![], 0, first_settled, errors)
+            }
+        }
+    })
+}
+
+fn split_runs(rng: &mut Rng, opts: &Opts, report: &mut Report) {
+    let n = if opts.thorough() { 300 } else { 30 };
+    for k in 0..n {
+        let mms = *rng.pick(&[64u64, 100, 300]);
+        let sends: Vec<SplitSend> = if k == 0 { vec![(true, 400), (false, 400), (true, 3)] } else { (0..rng.range(1, 5)).map(|_| (rng.chance(1, 2), *rng.pick(&[3usize, 150, 400, 1000]))).collect() };
+        report.evaluations += 1;
+        report.count("split_deliveries");
+        if sends.iter().any(|(_, l)| *l as u64 > mms) {
+            report.nontrivial_case(fnv(&format!("split{}{:?}", mms, sends)));
+        }
+        let (results, left, first_settled, errors) = run_split(mms, &sends);
+        let replay = json!({"property": "C02", "module": "settle", "split": {"max_message_size": mms, "sends": sends.iter().map(|(a, l)| json!([a, l])).collect::<Vec<_>>()}});
+        if let Some(e) = errors.first() {
+            report.finding(Finding { kind: "violation", key: "split-scenario-failed".into(), description: e.clone(), replay });
+            continue;
+        }
+        for (i, (ask, len)) in sends.iter().enumerate() {
+            if results.get(i).map(|r| r.as_str()) != Some("accepted") {
+                report.finding(Finding { kind: "violation", key: if *ask { "presettled-send-never-resolved".into() } else { "send-never-resolved".into() }, description: format!("mixed link, peer max-message-size {}: send {} ({} bytes, {}) resolved to {:?}; all results {:?}", mms, i, len, if *ask { "asked to be sent settled" } else { "unsettled, accepted by the peer" }, results.get(i), results), replay: replay.clone() });
+                break;
+            }
+            if first_settled.get(i).copied() != Some(*ask) {
+                report.finding(Finding { kind: "violation", key: "transfer-unexpected".into(), description: format!("send {} asked settled = {} but its first transfer carries settled = {:?}", i, ask, first_settled.get(i)), replay: replay.clone() });
+                break;
+            }
+        }
+        if left != 0 {
+            report.finding(Finding { kind: "violation", key: "unsettled-map-retains".into(), description: format!("{} deliveries are left in the sender's unsettled map after every send was settled (sends {:?})", left, sends), replay: replay.clone() });
+        }
+    }
 }
 
 pub fn main(opts: &Opts) {
@@ -1018,6 +1187,7 @@ pub fn main(opts: &Opts) {
             Err(e) => report.notes.push(format!("model driver failed: {}", e)),
         }
     }
+    split_runs(&mut rng, opts, &mut report);
     report.write(&opts.report);
     println!("settle: {} cases, {} non-trivial, {} findings", report.evaluations, report.nontrivial.len(), report.findings.len());
 }
